@@ -92,6 +92,18 @@ def build_source(label):
                             n.shard(v, configuration=cfg, axis=0, num_shards=2)
                             n.shard(v, configuration=cfg2, axis=-1, num_shards=4, pipeline_stage=1)
                     n.shard(n.outputs[0], configuration=cfg, axis=0, num_shards=2)
+            if label == "unsorted_nodes_left_unsorted@10":
+                # ... and annotated on inputs whose producers come LATER in the node list (IR 11)
+                model.ir_version = 11
+                cfu = model.add_device_configuration("unsorted_mesh", num_devices=2)
+                for n in model.graph:
+                    for v in n.inputs:
+                        if v is not None and v.producer() is not None and (v.shape is None or len(v.shape) > 0):
+                            n.shard(v, configuration=cfu, axis=0, num_shards=2)
+                # every initializer tensor carries metadata of its own
+                for v in model.graph.initializers.values():
+                    if v.const_value is not None:
+                        v.const_value.metadata_props["origin"] = "tensor-level"
             if label == "node_names_reset_to_none@10":
                 for n in model.graph.all_nodes():
                     n.name = None
